@@ -123,7 +123,7 @@ class Parser:
                     if a[0] != 'name':
                         raise Inconclusive('destructuring in short function definitions is not modelled')
                     params.append(a[1])
-                return ('function', e[1][1], params, [rhs])
+                return ('function', e[1][1], params, [('expr', rhs)])
             if e[0] != 'name':
                 raise Inconclusive('assignment to an indexed target is not modelled')
             return ('assign', e[1], rhs)
